@@ -23,7 +23,7 @@ def check(run):
     L = 2 if run.tier == "quick" else 3
     cfg = vlib.cfg_consts(RAlphabet={48, 49, 97, 66, 46, 95, 126, 94}, RMaxLen=L) + \
         "SPECIFICATION RMSpec\nINVARIANT RMachineAgrees\nPROPERTY RTerminates\nCHECK_DEADLOCK FALSE\n"
-    vlib.tlc(run, "MC_Rpm", cfg, workers=8, timeout=2400, heap="8g")
+    vlib.tlc(run, "MC_Rpm", cfg, workers=8, timeout=2400, heap="8g", coverage=True)
     run.extra["rpm_machine_max_string_length"] = L
     return refcheck.run_ref(run, "C11", ["rpm"], (1050, 4000), seeded_fn=seeded,
         rule="pairs of in-scope members within blocks of <=350 members of the TLC-generated universe + seeded character-level strings; each pair judged by Rpm.tla (rpmvercmp)",
